@@ -138,7 +138,7 @@ _PADS = [0, 0, 2, 4, 8, 12, 20, 100, 124, 126, 128, 130, 252, 254, 256, 258, 100
 
 
 @st.composite
-def program(draw, target, max_objects=2, max_sections=3, max_items=10, words=True, far=False, kinds=None):
+def program(draw, target, max_objects=2, max_sections=3, max_items=10, words=True, far=False, kinds=None, pads=None):
     """A program description.  far=True adds pads around 1 MiB (B/J-type range edges)."""
     t = TARGETS[target]
     gran = t["gran"]
@@ -155,8 +155,8 @@ def program(draw, target, max_objects=2, max_sections=3, max_items=10, words=Tru
             for _ in range(draw(st.integers(1, 3))):
                 labels.append(("l%d" % len(labels), oi, n))
     refs = [r for r in t["refs"] if kinds is None or r[0] in kinds]
-    wordt = t["words"] if words else []
-    pads = list(_PADS)
+    wordt = [w for w in t["words"] if words is True or (words and w in words)]
+    pads = list(_PADS if pads is None else pads)
     if far:
         pads += [0x7FFF0, 0xFFFF0, 0x100000 - 8, 0x100000, 0x100008]
     for oi, od in enumerate(objs):
